@@ -117,7 +117,7 @@ def corpus_items(run, n, sd):
 
     rcsg.generate_command_stream = wrapper     # inherited by the forked children; parent never compiles
     try:
-        jobs = corpus.all_singles(sd, tier=run.tier) + corpus.draw(n, sd)
+        jobs = corpus.all_singles(sd, tier=run.tier) + corpus.draw(n, sd) + corpus.shape_jobs(sd, run.tier, thorough=15)
         rs = vela_run.compile_many(jobs, extractor=extractor)
     finally:
         rcsg.generate_command_stream = real
